@@ -156,6 +156,7 @@ func structurePrograms() []node {
 		program(nil, stSend(sentLit(m(10)), sCap(m(5), sInorder(sAcc(nAcc("a")), sCap(m(2), sAcc(nAcc("b"))))), d)),
 		program(nil, stSend(sentLit(m(10)), sInorder(sOd(nAcc("a"), m(3)), sOdUnbounded(nAcc("b"))), d)),
 		program(nil, stSend(sentLit(m(10)), sAllot([2]node{nRatio(1, 3), sAcc(nAcc("a"))}, [2]node{nPercent("12.5%"), sInorder(sAcc(nAcc("b")), sAcc(nAcc("c")))}, [2]node{nRemaining, world}), d)),
+		program([]decl{{"account", "acc", nil}, {"monetary", "b", &bal}, {"account", "dest", nil}, {"number", "n", nil}, {"string", "v", &meta}, {"asset", "as", nil}}, stSend(sentLit(nVar("b")), sAcc(nVar("acc")), dAcc(nVar("dest")))),
 		program([]decl{{"portion", "p", nil}}, stSend(sentLit(m(10)), sAllot([2]node{nVar("p"), sCap(m(1), sAcc(nAcc("a")))}, [2]node{nRemaining, sOd(nAcc("b"), m(2))}), d)),
 		program(nil, stSend(sentLit(m(10)), sInorder(sInorder(sAcc(nAcc("a")), sAcc(nAcc("b"))), sInorder(sAcc(nAcc("c")))), d)),
 		// destinations
